@@ -217,10 +217,16 @@ CLAIMED = {
               "evaluates every valid definition to the meaning C17 states (C17_eval_den), constructors reject exactly the invalid "
               "definitions with RuntimeError (C17_ctor_rejects), a resource maps None to 0 (C17_resource_total), the availability search "
               "returns the earliest/latest whole-day offset with positive capacity and raises exactly when none exists within the horizon "
-              "(C17_search, C17_search_unique). The model is tied to the code by a correspondence stream (random nested definitions, "
+              "(C17_search, C17_search_unique). TRANSLATED tie: tools/extract_calendar.py turns, on every run, the bodies of "
+              "get_available_units of the eight calendar classes, Resource.get_available_units and the while loop of "
+              "get_nearest_availability_date into terms of a small embedded language (Model/PyLite.lean gives them meaning); "
+              "C17_source_eval / C17_source_resource / C17_source_search prove that running the translated source on a calendar object "
+              "is the model - a semantic edit of those methods breaks these proofs (14 such edits tried, all break; common harmless "
+              "rewrites still check), an edit outside the translatable fragment counts as a broken tie. Constructors, operators' "
+              "promotion of numbers and set_units are not translated. In addition the model is tied to the code by a correspondence stream (random nested definitions, "
               "queries on/around every validity bound, searches with small and the real horizon) whose observations are also judged "
               "by the spec-level monitors; a mismatch triggers a failing-input search."),
-        design='6 (C17)', technique='Lean 4 proof over an executable model + differential correspondence with spec monitors'),
+        design='6 (C17)', technique='Lean 4 proof over an executable model; evaluation and search methods translated from the source (PyLite) and proved equal to the model; differential correspondence with spec monitors'),
 }
 
 checks = []
